@@ -60,6 +60,9 @@ def _marshaller(
     if not nodes:
         return routines.NoOpMarshaller(t=t, context=context, var=None)  # type: ignore[arg-type]
 
+    # Members typed `Any` (or a free `TypeVar`) get no node of their own in the
+    #   graph, but container routines still look them up: they pass through.
+    context[tp.Any] = routines.NoOpMarshaller(tp.Any, context)  # type: ignore[arg-type]
     # "root" type will always be the final node in the sequence.
     root = nodes[-1]
     for node in nodes:
